@@ -30,7 +30,11 @@ def headerLines (pfx : Str) (kv : Str × Str) : List Str :=
 def flatLabel (label : Str) : Str := join [' '] (splitlines label)
 
 /-- `enumerate(labels, start=1)` -/
-def enum1 {α} (l : List α) : List (Nat × α) := (l.zipIdx 1).map (fun p => (p.2, p.1))
+def enumFrom {α} : Nat → List α → List (Nat × α)
+  | _, [] => []
+  | i, x :: xs => (i, x) :: enumFrom (i + 1) xs
+
+def enum1 {α} (l : List α) : List (Nat × α) := enumFrom 1 l
 
 def varnameWord : Str := "varname ".toList
 
